@@ -73,21 +73,20 @@ def parseOptionalDescription (ts : List Tok) : Option Str × List Tok :=
 /-! ### parse_schema.rs -/
 
 mutual
-/-- `parse_constant_value`: alternative 1 (IntegerLiteral), then the rest -/
-def parseConstantValue (resume : Bool) : Nat → List Tok → R Value
+/-- `parse_constant_value`.  The alternatives in source order: IntegerLiteral, FloatLiteral,
+StringLiteral, `true`, `false`, `null`, Identifier (enum), list, object, then the error
+"Unable to parse constant value".  `skipInt`: the IntegerLiteral alternative has already run at an
+earlier position (it consumed an integer outside i64 and failed) and the remaining alternatives
+continue here. -/
+def parseConstantValue (resume skipInt : Bool) : Nat → List Tok → R Value
   | 0, ts => .err ts
   | f + 1, ts =>
     match ts with
     | .int src :: r =>
-      if fitsI64 (intOfSrc src) then .ok (.int (intOfSrc src)) r
-      else if resume then valueAltsAfterInt resume f r   -- token consumed, `Err` → next alternative
+      if skipInt then .err ts
+      else if fitsI64 (intOfSrc src) then .ok (.int (intOfSrc src)) r
+      else if resume then parseConstantValue resume true f r   -- token consumed, `Err` → next alternative
       else .err r
-    | _ => valueAltsAfterInt resume f ts
-/-- alternatives FloatLiteral, StringLiteral, true, false, null, Identifier (enum), list -/
-def valueAltsAfterInt (resume : Bool) : Nat → List Tok → R Value
-  | 0, ts => .err ts
-  | f + 1, ts =>
-    match ts with
     | .float src :: r => .ok (.float src) r
     | .str raw :: r => .ok (.str raw) r
     | .name n :: r =>
@@ -98,14 +97,19 @@ def valueAltsAfterInt (resume : Bool) : Nat → List Tok → R Value
     | .punct .lbrack :: r =>
       match listItems resume f r with
       | .ok vs r' => .ok (.list vs) r'
-      | .err p => if resume then objectAlt resume f p else .err p
+      | .err p =>
+        -- the list alternative failed after consuming tokens; `to_control_flow` goes on with the
+        -- object alternative at the position where the failure left the lexer
+        if resume then
+          match p with
+          | .punct .lbrace :: r2 =>
+            match objectItems resume f r2 with
+            | .ok fs r' => .ok (.obj fs) r'
+            | .err p' => .err p'
+            | .panic => .panic
+          | _ => .err p
+        else .err p
       | .panic => .panic
-    | _ => objectAlt resume f ts
-/-- last alternative (object), then "Unable to parse constant value" -/
-def objectAlt (resume : Bool) : Nat → List Tok → R Value
-  | 0, ts => .err ts
-  | f + 1, ts =>
-    match ts with
     | .punct .lbrace :: r =>
       match objectItems resume f r with
       | .ok fs r' => .ok (.obj fs) r'
@@ -119,7 +123,7 @@ def listItems (resume : Bool) : Nat → List Tok → R ValueList
     match ts with
     | .punct .rbrack :: r => .ok .nil r
     | _ =>
-      match parseConstantValue resume f ts with
+      match parseConstantValue resume false f ts with
       | .ok v r =>
         match listItems resume f r with
         | .ok vs r' => .ok (.cons v vs) r'
@@ -134,7 +138,7 @@ def objectItems (resume : Bool) : Nat → List Tok → R FieldList
     match ts with
     | .punct .rbrace :: r => .ok .nil r
     | .name n :: .punct .colon :: r =>
-      match parseConstantValue resume f r with
+      match parseConstantValue resume false f r with
       | .ok v r1 =>
         match objectItems resume f r1 with
         | .ok fs r2 => .ok (.cons n v fs) r2
@@ -150,7 +154,7 @@ end
 def parseNameValuePair (resume : Bool) (f : Nat) (ts : List Tok) : R (Str × Value) :=
   (tokName ts).bind fun n r =>
   (tokPunct .colon r).bind fun _ r1 =>
-  (parseConstantValue resume f r1).bind fun v r2 => .ok (n, v) r2
+  (parseConstantValue resume false f r1).bind fun v r2 => .ok (n, v) r2
 
 /-- the loop of `parse_optional_constant_arguments` after the first pair -/
 def parseMoreArguments (resume : Bool) : Nat → List Tok → R FieldList
@@ -201,7 +205,7 @@ def parseTypeAnnotation : Nat → List Tok → R Ty
 /-- `parse_optional_constant_default_value` -/
 def parseOptionalDefault (resume : Bool) (f : Nat) (ts : List Tok) : R (Option Value) :=
   match tokPunct .eq ts with
-  | .ok _ r => (parseConstantValue resume f r).bind fun v r' => .ok (some v) r'
+  | .ok _ r => (parseConstantValue resume false f r).bind fun v r' => .ok (some v) r'
   | _ => .ok none ts
 
 /-- `parse_argument_definition` -/
